@@ -30,10 +30,21 @@ def run(tier, seed):
         raise vlib.Inconclusive("Leader.tla round-robin law fails in the spec itself: spec bug")
     rep.add_tlc(r, "Leader.tla round robin for sizes 4..64, start views 0..130")
     _table(rep, tier, seed)
+    # the leader a real node computes while handling proposals of other views (named to its consumer as the proposer)
+    from props import cluster
+    rep.assumptions += cluster.ASSUME
+    cluster.judge(rep, PID, tier, 0, args={"scenarios": True, "seed": 0}, what="directed schedules (attack library)")
+    a = dict(cluster.gen_args(tier, seed))
+    a["runs"] = a["runs"] // 2
+    cluster.judge(rep, PID, tier, seed, args=a)
     return rep.finish()
 
 
 def replay(path, seed):
+    payload = json.load(open(path))
+    if payload.get("kind") == "cluster-run":
+        from props import cluster
+        return cluster.simple_replay(PID, path, seed)
     rep = vlib.Report(PID, "quick", seed)
     rep.replay_of = path
     wd = vlib.scratch_dir("c18r")
